@@ -15,7 +15,7 @@ import threading
 import time
 import traceback
 
-from vf import inject
+from vf import inject, steady
 
 # ---------------------------------------------------------------------------
 # event log
@@ -795,20 +795,18 @@ class PoolRun(object):
     def wait_progress(self, cond, what, hard=60.0):
         """
         Waits for cond() under the bounded-progress rule: gives up (returns False)
-        only in a frozen state: two looks >= 1 s apart with no new event and cond
-        still false.  `hard` is the inconclusive watchdog.
+        only in a CONFIRMED frozen state (vf/steady.py: no useful event for 1.5 s and 250 looks, a responsive scheduler,
+        identical thread stacks 0.5 s apart) with cond still false.  `hard` is the inconclusive watchdog.
         """
         t0 = time.monotonic()
-        last_len = self.h.useful
-        last_change = t0
+        still = steady.Stillness(1.5, 250, self.name)
         while not cond():
             time.sleep(0.002)
-            n = self.h.useful
             now = time.monotonic()
-            if n != last_len:
-                last_len, last_change = n, now
-            elif now - last_change > 1.5:
-                self.frozen = {"what": what, "stacks": thread_stacks(self.name)}
+            verdict = still.look(self.h.useful)
+            if verdict is not None:
+                # confirmed (see vf/steady.py): silent for 1.5 s of observed polling, scheduler responsive, stacks identical
+                self.frozen = {"what": what, "stacks": verdict["stacks"]}
                 return False
             if now - t0 > hard:
                 self.frozen = {"what": what + " (watchdog, inconclusive)", "stacks": thread_stacks(self.name),
